@@ -9,7 +9,7 @@ EXTENDS RoutingBuild, TLC, Json
 
 CONSTANTS Alpha,      \* code points for text values
           MaxText,    \* maximal length of a text value
-          Shapes,     \* subset of 1..21
+          Shapes,     \* subset of 1..25
           ConvIds,    \* subset of 1..15
           Binds       \* subset of {10 * b + s : b \in 1..7, s \in 1..3}: binding b with script root s
 
@@ -107,6 +107,15 @@ Perm(k) == CASE k = 1 -> <<1, 2, 3>> [] k = 2 -> <<1, 3, 2>> [] k = 3 -> <<2, 1,
              [] k = 5 -> <<3, 1, 2>> [] OTHER -> <<3, 2, 1>>
 GroupY == {NoVal, Dflt(C2), Val("int", <<52, 50>>)}
 
+KN == <<107>>
+\* default of a placeholder: an int-typed default for float converters, a text that needs quoting for string / path,
+\* a negative one for signed ints
+DfltP(c) == CASE c.k = "float" -> Val("int", <<55>>)
+              [] c.k \in {"string", "path"} -> Val("str", <<37, 52, 49>>)
+              [] c.k = "any" -> Val("str", <<120, 37, 52, 49>>)
+              [] c.k = "int" -> IF c.signed THEN Val("int", <<45, 53>>) ELSE Val("int", <<55>>)
+              [] OTHER -> Val("uuid", U2)
+
 \* the rules of the map for a shape (dom filled in by the binding)
 RulesFor(s, c, v0, dom) ==
   LET v == Dflt(c) IN
@@ -126,18 +135,27 @@ RulesFor(s, c, v0, dom) ==
     \* 18, 19: two variables in one segment: /la/<int:y>-<x>   /la/v<x>.<int:y>~s
     [] s = 18 -> <<Rule(1, <<Lit(LA), Var2(<<>>, Y, C2, <<MINUS>>, X, c, <<>>)>>, FALSE, <<>>, dom)>>
     [] s = 19 -> <<Rule(1, <<Lit(LA), Var2(<<118>>, X, c, <<DOT>>, Y, C2, <<126, 115>>)>>, TRUE, <<>>, dom)>>
+    \* 22..25: a default for a placeholder of the rule itself (resolved through to_url at compile time):
+    \* /la/<x> {x}; the same next to /lb/<x> without defaults; in a subdomain / host placeholder <int(fixed_digits=3):k>
+    [] s = 22 -> <<Rule(1, <<Lit(LA), Var(<<>>, X, c, <<>>)>>, FALSE, <<Named(X, DfltP(c))>>, dom)>>
+    [] s = 23 -> <<Rule(1, <<Lit(LB), Var(<<>>, X, c, <<>>)>>, TRUE, <<>>, dom), Rule(1, <<Lit(LA), Var(<<112, 45>>, X, c, <<>>)>>, FALSE, <<Named(X, DfltP(c))>>, dom)>>
+    [] s = 24 -> <<[DynRule(1, <<Lit(LA), Var(<<>>, X, c, <<>>)>>, FALSE, Var(<<>>, KN, ConvU(5), <<>>)) EXCEPT !.defaults = <<Named(KN, Val("int", <<55>>))>>]>>
+    [] s = 25 -> <<[DynRule(1, <<Lit(LA), Var(<<>>, X, c, <<>>)>>, TRUE, Var(<<>>, KN, ConvU(7), <<DOT>> \o EX)) EXCEPT !.defaults = <<Named(KN, Val("int", <<45, 53>>))>>]>>
     \* 20, 21: shape 3 (extra query values) under sort_parameters / sort_key = value
     [] OTHER -> <<Rule(1, <<Lit(LA), Var(<<112, 45>>, X, c, <<126, 115>>)>>, FALSE, <<>>, dom)>>
 
 \* shapes where the variable is not the last segment cannot hold a path converter followed by a variable
 ShapeOKFor(s, c) == (s \in {7, 18, 19} => c.k # "path")
-BindOKFor(s, b) == (s \in {16, 17} => BindU(b).hm) /\ (s = 15 => ~BindU(b).hm)
+BindOKFor(s, b) == (s \in {16, 17, 25} => BindU(b).hm) /\ (s \in {15, 24} => ~BindU(b).hm)
 
 MapOf == [rules |-> RulesFor(sh, ConvU(cv), val, BindU(bd).dom), host_matching |-> BindU(bd).hm, redirect_defaults |-> TRUE,
           sort |-> IF sh = 20 THEN 1 ELSE IF sh = 21 THEN 2 ELSE 0]
 BindOf == [server |-> BindU(bd).server, script |-> ScriptU(sc), sub |-> BindU(bd).sub, scheme |-> BindU(bd).scheme]
 \* the call: endpoint 1 with x (not given in the defaults shapes half of the time: val2 = "none"), y for shape 7, an extra for shape 3
-ValsOf == IF sh \in {15, 16} THEN <<Named(X, val), Named(UN, val2)>>
+ValsOf == IF sh = 22 THEN (IF val2.ty = "none" THEN <<>> ELSE <<Named(X, DfltP(ConvU(cv)))>>)
+          ELSE IF sh = 23 THEN (IF val2.ty # "none" THEN <<Named(X, DfltP(ConvU(cv)))>> ELSE IF val.ty = "none" THEN <<>> ELSE <<Named(X, val)>>)
+          ELSE IF sh \in {24, 25} THEN <<Named(X, val)>> \o (IF val2.ty = "none" THEN <<>> ELSE <<Named(KN, Val("int", IF sh = 24 THEN <<55>> ELSE <<45, 53>>))>>)
+          ELSE IF sh \in {15, 16} THEN <<Named(X, val), Named(UN, val2)>>
           ELSE IF sh = 17 THEN <<Named(PN, val2), Named(X, val)>>
           ELSE IF sh \in {18, 19} THEN <<Named(X, val), Named(Y, val2)>>
           ELSE IF sh \in 9..14 THEN (IF val.ty = "none" THEN <<>> ELSE <<Named(X, val)>>) \o (IF val2.ty = "none" THEN <<>> ELSE <<Named(Y, val2)>>)
@@ -156,9 +174,9 @@ Init == /\ ph = 0
         /\ BindOKFor(sh, bd)
         /\ val = NoVal /\ val2 = NoVal /\ ext = FALSE
 Next == /\ ph = 0 /\ ph' = 1
-        /\ val' \in ValuesOf(ConvU(cv)) \cup (IF sh \in 9..14 THEN {NoVal} ELSE {})
+        /\ val' \in (IF sh = 22 THEN {NoVal} ELSE ValuesOf(ConvU(cv)) \cup (IF sh \in (9..14) \cup {23} THEN {NoVal} ELSE {}))
         /\ val2' \in (IF sh \in 9..14 THEN GroupY ELSE IF sh \in {15, 16} THEN DomVals ELSE IF sh = 17 THEN PortVals
-                      ELSE IF sh \in {18, 19} THEN ValuesOf(C2) ELSE IF sh = 7 THEN ValuesOf(C2) ELSE IF sh \in {5, 8} THEN {NoVal, Val("str", <<>>)} ELSE {NoVal})
+                      ELSE IF sh \in {18, 19} THEN ValuesOf(C2) ELSE IF sh \in 22..25 THEN {NoVal, Val("str", <<>>)} ELSE IF sh = 7 THEN ValuesOf(C2) ELSE IF sh \in {5, 8} THEN {NoVal, Val("str", <<>>)} ELSE {NoVal})
         /\ ext' \in BOOLEAN
         /\ UNCHANGED <<sh, cv, bd, sc>>
 NoNext == FALSE /\ UNCHANGED vars
